@@ -399,6 +399,13 @@ func TestReplay(t *testing.T) {
 		}
 		return
 	}
+	if stats.ReplayTest() == "TestC17_External" {
+		var xc XCase
+		if stats.LoadReplay(t, &xc) {
+			checkExternal(run, t, xc)
+		}
+		return
+	}
 	if stats.ReplayTest() == "TestC17_Merge" {
 		var mc MCase
 		if stats.LoadReplay(t, &mc) {
